@@ -255,7 +255,9 @@ func init() {
 		Groups: []Group{
 			{Funcs: `^frame\.lemma(Header|Raw)RoundTrip$`, OnlyCt: true, Classes: layoutClasses},
 			{Funcs: `^\(\*frame\.codec\)\.(EncodeHeader|DecodeHeader|EncodeRawFrame|DecodeRawFrame)$`, OnlyCt: true, Classes: layoutClasses},
-			{Funcs: `^message\.haveSameTable$|^message\.lemma(Tok)?RoundTrip[A-Za-z]+$|^\(\*message\.[A-Za-z]+\)\.Flags$`, OnlyCt: true, Classes: append([]string{"nil", "index"}, layoutClasses...)},
+			{Funcs: `^message\.haveSameTable$|^\(\*message\.[A-Za-z]+\)\.Flags$`, OnlyCt: true, Classes: append([]string{"nil", "index"}, layoutClasses...)},
+			// lemma functions: their own postconditions (the safety of the codec bodies they execute is C04's business)
+			{Funcs: `^message\.lemma(Tok)?RoundTrip[A-Za-z]+$`, OnlyCt: true, Classes: []string{"post", "cover"}},
 		},
 		Assume: []string{
 			"covered: for every header with a supported version, an opcode of the matching direction and (v2) a stream id in [-128,127], EncodeHeader succeeds into a buffer and DecodeHeader of those bytes succeeds and returns the same direction, version, flags, stream id, opcode and body length; the same with an opaque body of any length and content (raw frames); haveSameTable (which sets the GLOBAL_TABLES_SPEC flag that makes the decoder copy one keyspace/table into every column) is true exactly when all columns share keyspace and table",
